@@ -296,11 +296,18 @@ def history_job(job):
                         hd[0].header["CRPIX1"] = 150.5 - 300 * i
                 paths.append(p)
             kw = {}
-        else:
+        elif ninputs == 1:
             p = os.path.join(d, "in0.fits")
             make_fits(p, 40, 30, 0.5, crval=(80.0, -10.0))
             paths.append(p)
             kw = {"start": 2}
+        else:
+            # inputs of different pixel scales, the finer one first; the depth is guessed
+            for i, (w, h, scale) in enumerate([(48, 40, 0.12), (30, 24, 0.5), (40, 40, 0.3)][:ninputs]):
+                p = os.path.join(d, "in%d.fits" % i)
+                make_fits(p, w, h, scale, crval=(80.0 + 3 * i, -10.0))
+                paths.append(p)
+            kw = {}
         out = os.path.join(d, "out")
         # BFS over call sequences; the state is fully described by "an output of this method exists"
         frontier = [[]]
@@ -368,7 +375,9 @@ def run(tier, seed):
         for fmt in ("png", "jpg", "npy", "fits"):
             jobs.append(("template", scheme, fmt, depth))
     hd = 2 if tier == "quick" else 3
-    jobs += [("history", "TAN", hd, 1), ("history", "TOAST", hd, 1), ("history", "TAN", hd, 2)]
+    jobs += [("history", "TAN", hd, 1), ("history", "TOAST", hd, 1), ("history", "TAN", hd, 2), ("history", "TOAST", 1 if tier == "quick" else 2, 2)]
+    if tier == "thorough":
+        jobs.append(("history", "TOAST", 1, 3))
     wfs = [
         ("tile-study", 700, 300, True),
         ("tile-study", 256, 256, False),
